@@ -149,7 +149,7 @@ template<class A, class B> void do_compare(std::string const& op, A const& a, B 
 	auto sa = sizes_of(a), sb = sizes_of(b);
 	auto va = flat_values(a), vb = flat_values(b);
 	if(!va.empty() && !vb.empty()) {
-		bool req = (sa == sb) && (va == vb);
+		bool req = (exts_of(a) == exts_of(b)) && (va == vb);   // same extents (index bases included) and same elements
 		bool rlt = nested_lt(sa, va.data(), sb, vb.data(), 0), rgt = nested_lt(sb, vb.data(), sa, va.data(), 0);
 		bool want = op == "eq" ? req : op == "ne" ? !req : op == "lt" ? rlt : op == "gt" ? rgt : op == "le" ? (rlt || req) : (rgt || req);
 		if(want != res) std::fprintf(fans, "REF-MISMATCH %s impl=%d reference=%d\n", op.c_str(), res ? 1 : 0, want ? 1 : 0);
@@ -576,6 +576,17 @@ static void gen_zero_d(Rng& rng, bool compare_only) {
 	}
 }
 
+// the same index bases (-3..3, mixed signs included) on both operands: extents stay equal, both become re-based views (C19)
+static void maybe_rebase_pair(int ra, int rb, Rng& rng, int pct) {
+	if(!rng.coin(pct)) return;
+	int D = rank_of(regs[static_cast<std::size_t>(ra)].v);
+	if(D < 1 || D != rank_of(regs[static_cast<std::size_t>(rb)].v)) return;
+	int k = static_cast<int>(rng.range(1, std::min<long>(D, 3)));
+	std::vector<long> b; for(int j = 0; j < k; ++j) b.push_back(rng.range(-3, 3));
+	emit_v(ra, ra, "reindexed", b);
+	emit_v(rb, rb, "reindexed", b);
+}
+
 static void gen_c05(Rng& rng) {
 	g_next[0] = 16 + rng.range(0, 9); g_next[1] = 16 + rng.range(0, 9);
 	int kind = rng.pick({7, 48, 17, 15, 13});
@@ -601,6 +612,7 @@ static void gen_c05(Rng& rng) {
 			if(z.empty() || z.size() > 4) return;
 		}
 		build_embedded(z, sl, 10, 11, rng, rng.coin(15));
+		if(same_shape(1, 11)) maybe_rebase_pair(1, 11, rng, 22);
 		exec_line("q shape 1"); exec_line("q shape 11");
 		if(!same_shape(1, 11)) { exec_line("q eq v1 v11"); exec_line("q ne v1 v11"); return; }   // an empty extent collapsed one side
 		gen_mutations(1, 11, rng, true);
@@ -624,6 +636,7 @@ static void gen_c05(Rng& rng) {
 		// the same axis permutation on both sides keeps the extents equal
 		int np = static_cast<int>(rng.range(0, 2));
 		for(int k = 0; k < np; ++k) { char const* nm = (D >= 2 && rng.coin(50)) ? "transposed" : (rng.coin(50) ? "rotated" : "unrotated"); emit_v(1, 1, nm); emit_v(11, 11, nm); }
+		if(same_shape(1, 11)) maybe_rebase_pair(1, 11, rng, 22);
 		exec_line("q shape 1");
 		if(!same_shape(1, 11)) return;
 		gen_mutations(1, 11, rng, true);
